@@ -4,7 +4,7 @@
    `quote` (urllib.parse.quote) is an oracle: the theorems hold for every function that never emits '#'. *)
 From Coq Require Import NArith List Bool Arith.
 From PydoctorVerif Require Import Base.Sexp Model.SiteTable Model.Site Model.SitePinned Gen.Listings
-     Spec.SiteSpec Proofs.SiteProofs Proofs.SiteWitness.
+     Spec.SiteSpec Proofs.SiteProofs Proofs.SiteWitness Model.SiteIR Gen.SiteCode Proofs.SiteIRProofs.
 Import ListNotations.
 
 (* Per run: every listing of the template writer, as it is in /repo NOW, filters on isVisible and iterates the
@@ -202,6 +202,31 @@ Proof.
   destruct non_ascii_href as [o [H1 [H2 H3]]]. exists w_non_ascii, o.
   exact (conj w_non_ascii_wf (conj H1 (conj H2 H3))).
 Qed.
+
+(* ------------------------------------------------------------------ the tie to the source.
+   Gen/SiteCode.v holds the BODIES of Documentable.fullName / page_object / url (pydoctor/model.py) and taglink
+   (pydoctor/linker.py), translated statement by statement from the CURRENT source into the language of
+   Model/SiteIR.v (harness/gen/gen_c11_code.py, fail-closed).  Interpreting them IS the hand-written model, for every
+   well-formed registry, object, page url and label (fuel never runs out: one unit per object on the parent chain). *)
+Theorem C11_code_fullname_is_model : forall quote r, wf r -> forall fuel i, i < fuel -> valid r i ->
+  run_fn quote site_code r fuel FFullName i env0 = Val (VStr (fullname r i)).
+Proof. exact code_fullname. Qed.
+
+(* page_object: the object, its parent -- or the AssertionError exactly where the model has no page *)
+Theorem C11_code_page_object_is_model : forall quote r fuel i, 1 <= fuel -> valid r i ->
+  run_fn quote site_code r fuel FPageObject i env0 = match page_obj r i with Some p => Val (VObj p) | None => Err end.
+Proof. exact code_page_object. Qed.
+
+Theorem C11_code_url_is_model : forall quote r, wf r -> forall fuel i, i + 3 < fuel -> valid r i ->
+  run_fn quote site_code r fuel FUrl i env0 = match page_obj r i with Some _ => Val (VStr (url quote r i)) | None => Err end.
+Proof. exact code_url. Qed.
+
+(* taglink(o, page_url, label): the label (o.fullName() by default); no <a> for a target that is not visible; otherwise
+   href = the model's taglink (same-page shortening included) and title = fullName unless it is the label *)
+Theorem C11_code_taglink_is_model : forall quote r, wf r -> forall fuel o ctx label,
+  o + 5 < fuel -> valid r o -> page_obj r o <> None -> (label = VNone \/ exists t, label = VStr t) ->
+  run_fn quote site_code r fuel FTaglink o (taglink_args ctx label) = Val (taglink_tag quote r o ctx label).
+Proof. exact code_taglink. Qed.
 
 (* non-vacuity: a well-formed registry where everything is reachable, with pages, anchors and live links;
    the concrete quote never emits '#' *)
